@@ -20,6 +20,63 @@ Proof. intros thr n. unfold use_re2_src, use_re2. cbv zeta. lia. Qed.
 Lemma used_implies_compiled : forall thr n, use_re2 thr n = true -> re2_compiled thr = true.
 Proof. intros thr n H. unfold use_re2 in H. apply andb_true_iff in H. apply H. Qed.
 
+(** ---- threshold(): the reader in the source is the specified one *)
+Lemma tcond3_sound : forall opq e c v,
+  tcond3 (env_set e) (env_parsed e) c = Some v -> eval_tcond opq e c = v.
+Proof.
+  intros opq e c. induction c as [| | | |c1 IH1|c1 IH1 c2 IH2|c1 IH1 c2 IH2|k]; intros v H; simpl in H |- *.
+  - congruence.
+  - congruence.
+  - congruence.
+  - congruence.
+  - destruct (tcond3 (env_set e) (env_parsed e) c1) as [v1|] eqn:E1; simpl in H; [|discriminate].
+    injection H as H. rewrite (IH1 v1 eq_refl). exact H.
+  - destruct (tcond3 (env_set e) (env_parsed e) c1) as [[|]|] eqn:E1;
+      destruct (tcond3 (env_set e) (env_parsed e) c2) as [[|]|] eqn:E2;
+      try discriminate; injection H as H; subst v;
+      rewrite ?(IH1 _ eq_refl), ?(IH2 _ eq_refl); auto using andb_false_r.
+  - destruct (tcond3 (env_set e) (env_parsed e) c1) as [[|]|] eqn:E1;
+      destruct (tcond3 (env_set e) (env_parsed e) c2) as [[|]|] eqn:E2;
+      try discriminate; injection H as H; subst v;
+      rewrite ?(IH1 _ eq_refl), ?(IH2 _ eq_refl); auto using orb_true_r.
+  - discriminate.
+Qed.
+
+Definition tval_interp (v : tval) (e : env3) : option Z :=
+  match v with VParsed => env3_opt e | VConst z => Some z end.
+
+Lemma tleaves_ok_sound : forall opq want e t,
+  tleaves_ok want (env_set e) (env_parsed e) t = true -> eval_ttree opq t e = tval_interp want e.
+Proof.
+  intros opq want e t. induction t as [v|c t1 IH1 t2 IH2|]; intros H; simpl in H |- *.
+  - destruct v as [|z], want as [|z']; simpl in H; try discriminate; try reflexivity.
+    apply Z.eqb_eq in H. subst z'. reflexivity.
+  - destruct (tcond3 (env_set e) (env_parsed e) c) as [[|]|] eqn:E.
+    + rewrite (tcond3_sound opq e c true E). auto.
+    + rewrite (tcond3_sound opq e c false E). auto.
+    + apply andb_true_iff in H. destruct H as [H1 H2]. destruct (eval_tcond opq e c); auto.
+  - discriminate.
+Qed.
+
+Lemma ttree_ok_sound : forall opq t e, ttree_ok t = true -> eval_ttree opq t e = Some (parse_threshold (env3_opt e)).
+Proof.
+  intros opq t e H. unfold ttree_ok in H.
+  apply andb_true_iff in H. destruct H as [H Hint]. apply andb_true_iff in H. destruct H as [Hunset Hbad].
+  destruct e as [| |n].
+  - rewrite (tleaves_ok_sound opq (VConst (-1)) EnvUnset t Hunset). reflexivity.
+  - rewrite (tleaves_ok_sound opq (VConst (-1)) EnvBad t Hbad). reflexivity.
+  - rewrite (tleaves_ok_sound opq VParsed (EnvInt n) t Hint). reflexivity.
+Qed.
+
+Lemma generated_threshold_tree_ok : ttree_ok threshold_tree = true.
+Proof. vm_compute. reflexivity. Qed.
+
+Lemma threshold_src_eq : forall opq e, threshold_src opq e = Some (parse_threshold (env3_opt e)).
+Proof. intros opq e. apply ttree_ok_sound. exact generated_threshold_tree_ok. Qed.
+
+Lemma threshold_env_name_eq : threshold_env_name = "ZOEKT_RE2_THRESHOLD_BYTES"%string.
+Proof. reflexivity. Qed.
+
 (** ---- soundness of the checker *)
 Section Sound.
   Variables R T L O : Type.
